@@ -17,14 +17,25 @@ static struct vecN saved_vec; static struct vec1 box_vec;
 static struct proc_t kont_obj, self_obj, recv_obj, other_obj; static struct bcode_t self_bc, resume_bc, other_bc;
 sexp in_slot[TOP0]; sexp in_value; long in_fp;
 int vec_allocs;
+#ifdef VERIF_GC
+#define VM_TRACK(v, n) vm_gc_track_vector(v, n)
+#else
+#define VM_TRACK(v, n)
+#endif
 
 sexp sexp_make_vector_op (sexp ctx, sexp self, sexp_sint_t n, sexp len, sexp dflt) {     /* alloc_plain for the two vectors call/cc makes */
   vec_allocs++;
-  if (len == SEXP_ONE) { box_vec.h.tag = SEXP_VECTOR; box_vec.length = 1; box_vec.data[0] = dflt; verif_register(&box_vec); return (sexp)&box_vec; }
+#ifdef VERIF_GC
+  vm_collect(ctx);                 /* C02: a collection at every allocation */
+#endif
+  if (len == SEXP_ONE) { box_vec.h.tag = SEXP_VECTOR; box_vec.length = 1; box_vec.data[0] = dflt; verif_register(&box_vec); VM_TRACK(&box_vec, 1); return (sexp)&box_vec; }
   __CPROVER_assert(len == sexp_make_fixnum(SAVED), "callcc.saved_length: call/cc saves top + 4 slots");
-  saved_vec.h.tag = SEXP_VECTOR; saved_vec.length = SAVED; for (int k = 0; k < SAVED; k++) saved_vec.data[k] = dflt; verif_register(&saved_vec); return (sexp)&saved_vec;
+  saved_vec.h.tag = SEXP_VECTOR; saved_vec.length = SAVED; for (int k = 0; k < SAVED; k++) saved_vec.data[k] = dflt; verif_register(&saved_vec); VM_TRACK(&saved_vec, SAVED > 24 ? 24 : SAVED); return (sexp)&saved_vec;
 }
 sexp sexp_make_procedure_op (sexp ctx, sexp self, sexp_sint_t n, sexp flags, sexp num_args, sexp bc, sexp vars) {
+#ifdef VERIF_GC
+  vm_collect(ctx);
+#endif
   kont_obj.h.tag = SEXP_PROCEDURE; kont_obj.bc = bc; kont_obj.vars = vars; kont_obj.flags = (char)sexp_unbox_fixnum(flags); kont_obj.num_args = (sexp_proc_num_args_t)sexp_unbox_fixnum(num_args);
   verif_register(&kont_obj); return (sexp)&kont_obj;
 }
@@ -53,7 +64,13 @@ void h_callcc_resume(void) {
   for (int k = 0; k < TOP0; k++) OBL(saved_vec.data[k] == in_slot[k], "save_stack.contents: every live slot is saved");
   OBL(saved_vec.data[TOP0] == SEXP_ONE && saved_vec.data[TOP0 + 2] == (sexp)&self_obj && saved_vec.data[TOP0 + 3] == sexp_make_fixnum(in_fp)
       && saved_vec.data[TOP0 + 1] == sexp_make_fixnum(8), "callcc.frame_words: the saved frame words record argument count, return offset, self and fp");
+#ifdef VERIF_GC
+  OBL(vm_collections == 3, "callcc.collected: a collection ran at each of the three allocations of the capture");
+  OBL(!vm_gc_vec_dead[0] && !vm_gc_vec_dead[1] && box_vec.h.tag == SEXP_VECTOR && box_vec.length == 1 && saved_vec.h.tag == SEXP_VECTOR && saved_vec.length == SAVED,
+      "gc.capture_live: the continuation box and the saved stack survive the collections during the capture");
+#endif
   OBL(S.tmp1 == (sexp)&recv_obj && S.i == 1 && S.stack[S.top - 2] == (sexp)&kont_obj, "callcc.call: the receiver is applied to the continuation");
+#ifndef CAPTURE_ONLY
   /* ---- the program runs on: the stack and the registers change arbitrarily ---- */
   for (int k = 0; k < SAVED; k++) S.stack[k] = vm_any_immediate();
   in_value = vm_any_immediate();
@@ -67,5 +84,6 @@ void h_callcc_resume(void) {
   for (int k = 0; k < TOP0 - 1; k++) OBL(S.stack[k] == in_slot[k], "resumecc.stack: the stack below the call/cc expression holds what was captured");
   OBL(S.top == TOP0 && S.stack[TOP0 - 1] == in_value, "resumecc.value: the call/cc expression's slot holds the value passed to the continuation");
   OBL(S.fp == in_fp && S.self == (sexp)&self_obj && S.bc == (sexp)&self_bc && S.ip == (unsigned char*)self_bc.data + 8, "resumecc.registers: fp, self and ip are those of the capture point");
+#endif
   REACH();
 }
